@@ -3,6 +3,7 @@ CONSTANTS
   Sigs = {"KILL", "STOP"}
   WithExit = TRUE
   MaxH = 100
+  UniformInit = FALSE
 VIEW view
 INVARIANT Consistent
 INVARIANT EmitState
